@@ -1,6 +1,7 @@
 from __future__ import annotations
 
 import ast
+import copy
 import functools
 import inspect
 import itertools
@@ -323,6 +324,11 @@ class FormulaMaterializer(metaclass=FormulaMaterializerMeta):
             overrides: dict[str, Any] = {
                 "materializer": self.REGISTER_NAME,
                 "materializer_params": self.params,
+                # Materialization records state into these dictionaries, and so
+                # we copy them to avoid mutating the incoming model spec (which
+                # would otherwise share them with the spec we build here).
+                "transform_state": copy.deepcopy(model_spec.transform_state),
+                "encoder_state": copy.deepcopy(model_spec.encoder_state),
             }
 
             if model_spec.output is None:
